@@ -21,6 +21,7 @@ from gen import *          # noqa
 from universe import build_universe
 import cases as casegen
 import special
+import shrink
 
 COQ = os.path.join(VERIF, 'coq')
 
@@ -196,6 +197,7 @@ def main():
     soft = [f for f in violations if not f.get('decisive')]
     if decisive:
         f = sorted(decisive, key=lambda x: len(x['case']))[0]
+        f = shrink_failure(prop, f, result)
         path = write_replay(prop, tier, seed, f, result, ps, kind='failing-input')
         out_lines.append('VIOLATION property=%s replay=%s' % (prop, path))
         nviol = len(decisive)
@@ -312,7 +314,7 @@ def standard_check(prop, tier, seed, widen=False, gen=None, race=False):
         samples.append([sx[:200] for _, sx in sess_ids[0][:6]])
     return {'evaluations': len(cases), 'distinct': distinct, 'types': types_used, 'universe_types': len(u.structs),
             'distribution': dist, 'outcomes': errs, 'failures': failures, 'samples': samples,
-            'universe': u, 'corpus_cases': len(corpus), 'sessions': len(sess_ids)}
+            'universe': u, 'exe': exe, 'corpus_cases': len(corpus), 'sessions': len(sess_ids)}
 
 
 def session_of(sess_ids, cid):
@@ -320,6 +322,44 @@ def session_of(sess_ids, cid):
         if any(c == cid for c, _ in ids):
             return [sx for _, sx in ids]
     return None
+
+
+def shrink_failure(prop, f, result):
+    """greedy minimisation of an independent failing case (sessions are reported as they are)"""
+    u = result.get('universe')
+    exe = result.get('exe')
+    if u is None or exe is None or f.get('session') or f['case'].startswith('(universe'):
+        return f
+    dec = DECISIVE.get(prop, set())
+    usx = u.env_sx() + '\n' + u.gouniverse_sx()
+
+    def run_batch(cands):
+        cases = [('s%d' % i, c) for i, c in enumerate(cands)]
+        obs = run_cases(exe, cases, shards=min(NPROC, max(1, len(cases) // 10)))
+        res = run_judge(usx, cases, obs, os.path.join(CACHE, 'work', prop + '-shrink'))
+        out = []
+        for cid, _ in cases:
+            r = res.get(cid)
+            out.append(None if r is None or r[0] == 'ok' else r[1])
+        shrink_failure.obs = obs
+        shrink_failure.res = res
+        shrink_failure.cases = dict(cases)
+        return out
+    try:
+        t0 = time.time()
+        want = [t for t in f['tags'] if t in dec] or f['tags']
+        small, tags = shrink.shrink_case(f['case'], want, run_batch)
+        if small != f['case']:
+            # re-run the minimal case to record its observation
+            out = run_batch([small])
+            g = dict(f)
+            g.update({'case': small, 'tags': out[0] or tags, 'detail': shrink_failure.res.get('s0', ('', [], ''))[2] if shrink_failure.res.get('s0') else f['detail'],
+                      'obs': shrink_failure.obs.get('s0', ''), 'shrunk_from_chars': len(f['case'])})
+            log('[%s] shrunk failing case from %d to %d characters in %.1fs' % (prop, len(f['case']), len(small), time.time() - t0))
+            return g
+    except Exception as e:      # shrinking is best effort
+        log('[%s] shrink failed: %r' % (prop, e))
+    return f
 
 
 def load_corpus(prop, u):
